@@ -69,6 +69,13 @@ func pMessage(k int, big bool) []byte {
 
 type pInfra string
 
+func pMin(a, b int) int {
+	if a < b {
+		return a
+	}
+	return b
+}
+
 type pSink struct {
 	mu       sync.Mutex
 	ln       net.Listener
@@ -159,8 +166,12 @@ func (s *pSink) start() error {
 					return
 				}
 				s.mu.Lock()
-				buf.Write(b[:n])
-				s.lines(buf)
+				// a datagram sink has no stream to reassemble: each message is one datagram, "message\n" and nothing else
+				if n > 0 && b[n-1] == '\n' && bytes.IndexByte(b[:n-1], '\n') < 0 {
+					s.arrivals = append(s.arrivals, append([]byte{}, b[:n-1]...))
+				} else {
+					s.arrivals = append(s.arrivals, append([]byte(fmt.Sprintf("<datagram of %d octets that is not one newline-terminated message> ", n)), b[:pMin(n, 60)]...))
+				}
 				s.mu.Unlock()
 			}
 		}()
@@ -539,6 +550,83 @@ func pStall(sc pScript, sink *pSink, rs *RawSocket, ch chan []byte, done chan st
 	}
 	sink.mu.Unlock()
 	res.Events = append(res.Events, pEvent{Ev: "end", Delivered: delivered})
+}
+
+// TestVerifTwoProducers: the collector runs one producer per protocol; each delivers to ITS configured sink.  Two
+// raw-socket producers built the public way (NewProducer, configuration file, Run) with different sinks.
+func TestVerifTwoProducers(t *testing.T) {
+	out := os.Getenv("VERIF_OUT")
+	if out == "" || os.Getenv("VERIF_TWO") == "" {
+		t.Skip("driver: VERIF_TWO not set")
+	}
+	dir, err := ioutil.TempDir("", "verif-c14two")
+	if err != nil {
+		t.Fatal(err)
+	}
+	defer os.RemoveAll(dir)
+	type side struct {
+		sink *pSink
+		p    *Producer
+		ec   uint64
+		done chan struct{}
+	}
+	var sides []*side
+	for k := 0; k < 2; k++ {
+		l, err := net.Listen("tcp", "127.0.0.1:0")
+		if err != nil {
+			t.Fatal(err)
+		}
+		addr := l.Addr().String()
+		l.Close()
+		sk := &pSink{addr: addr, proto: "tcp"}
+		if err := pStart(sk); err != nil {
+			t.Fatal(err)
+		}
+		defer sk.stop()
+		cf := fmt.Sprintf("%s/mq%d.conf", dir, k)
+		ioutil.WriteFile(cf, []byte(fmt.Sprintf("url: %s\nprotocol: tcp\nretry-max: 2\n", addr)), 0644)
+		sd := &side{sink: sk, done: make(chan struct{})}
+		sd.p = NewProducer("rawSocket")
+		sd.p.MQConfigFile, sd.p.MQErrorCount, sd.p.Topic = cf, &sd.ec, fmt.Sprintf("topic%d", k)
+		sd.p.Chan, sd.p.Logger = make(chan []byte), log.New(ioutil.Discard, "", 0)
+		sides = append(sides, sd)
+	}
+	for _, sd := range sides {
+		go func(sd *side) { defer close(sd.done); sd.p.Run() }(sd)
+		time.Sleep(100 * time.Millisecond) // set up one after the other, as the protocols are
+	}
+	hung := false
+	for m := 1; m <= 20 && !hung; m++ {
+		for k, sd := range sides {
+			select {
+			case sd.p.Chan <- []byte(fmt.Sprintf("producer %d message %d", k, m)):
+			case <-time.After(5 * time.Second):
+				hung = true
+			}
+		}
+		time.Sleep(2 * time.Millisecond)
+	}
+	for _, sd := range sides {
+		sd.p.Shutdown()
+		select {
+		case <-sd.done:
+		case <-time.After(5 * time.Second):
+			hung = true
+		}
+	}
+	time.Sleep(50 * time.Millisecond)
+	res := map[string]interface{}{"hung": hung}
+	for k, sd := range sides {
+		sd.sink.mu.Lock()
+		var lines []string
+		for _, a := range sd.sink.arrivals {
+			lines = append(lines, string(a))
+		}
+		sd.sink.mu.Unlock()
+		res[fmt.Sprintf("sink%d", k)] = lines
+	}
+	b, _ := json.Marshal(res)
+	ioutil.WriteFile(out, b, 0644)
 }
 
 func TestVerifProducerScripts(t *testing.T) {
